@@ -322,3 +322,23 @@ def may_press(ctx, roots):
         if sites:
             out[p] = sites
     return out
+
+
+
+def variant_set(events, subject, all_variants):
+    """the variants `subject` can still have after the guards among `events` (match arms, matches!, if let ...)"""
+    poss = set(all_variants)
+    for e in events:
+        if getattr(e, "kind", None) == "guard":
+            a, v = e.a, e.b
+        elif isinstance(e, tuple) and len(e) == 2:
+            a, v = e
+        else:
+            continue
+        if a != T("variantof", subject):
+            continue
+        if isinstance(v, str):
+            poss &= {v}
+        elif isinstance(v, tuple) and v and v[0] == "other":
+            poss -= set(v[1])
+    return poss
